@@ -468,14 +468,14 @@ func (w *Workspace) genericReplay(r *FuncResult, o *Obligation, scratch string) 
 	var q strings.Builder
 	q.WriteString("(set-option :produce-models true)\n(set-logic ALL)\n")
 	q.WriteString(r.StaticPrelude)
-	q.WriteString(ri.Decls)
+	q.WriteString(monoOptions(ri.Decls))
 	for _, a := range smtVals {
 		q.WriteString(a + "\n")
 	}
 	for _, a := range resultAsserts {
 		q.WriteString(a + "\n")
 	}
-	fmt.Fprintf(&q, "(assert (not %s))\n(check-sat)\n", formula)
+	fmt.Fprintf(&q, "(assert (not %s))\n(check-sat)\n", monoOptions(formula))
 	qf := filepath.Join(scratch, "replay_eval.smt2")
 	os.WriteFile(qf, []byte(q.String()), 0o644)
 	v, _, sout, _ := race(qf, 20, o.Concrete)
@@ -487,6 +487,64 @@ func (w *Workspace) genericReplay(r *FuncResult, o *Obligation, scratch string) 
 		out.Detail = "postcondition holds on the real output (the model lives in an abstraction)"
 	default:
 		out.Detail = "could not evaluate the postcondition on the real output: " + truncate(sout, 300)
+	}
+	return out
+}
+
+// ---------------------------------------------------------------------------
+// scenario replay: for obligations on state-changing handlers a hand-written
+// scenario (kept in /verif/replay, keyed by obligation name) drives the real
+// keeper through the sequence the obligation describes.
+
+type Scenario struct {
+	Pkg  string `json:"pkg"`
+	File string `json:"file"`
+	Test string `json:"test"`
+}
+
+func loadScenarios(verif string) map[string]Scenario {
+	out := map[string]Scenario{}
+	b, err := os.ReadFile(filepath.Join(verif, "replay", "scenarios.json"))
+	if err != nil {
+		return out
+	}
+	json.Unmarshal(b, &out)
+	return out
+}
+
+func (w *Workspace) scenarioReplay(o *Obligation, scratch string) *ReplayOutcome {
+	sc, ok := loadScenarios(w.verif)[strings.TrimSuffix(o.Name, "!outside_known")]
+	if !ok {
+		return nil
+	}
+	out := &ReplayOutcome{Inputs: map[string]string{"scenario": sc.Test}}
+	os.MkdirAll(scratch, 0o755)
+	target := filepath.Join(w.repo, sc.Pkg, "zz_verif_scenarios_test.go")
+	ov, _ := json.Marshal(map[string]interface{}{"Replace": map[string]string{target: filepath.Join(w.verif, "replay", sc.File)}})
+	ovFile := filepath.Join(scratch, "overlay_scn.json")
+	os.WriteFile(ovFile, ov, 0o644)
+	cmd := exec.Command("go", "test", "-overlay", ovFile, "-vet=off", "-timeout", "120s", "-count=1", "-v", "-run", "^"+sc.Test+"$", "./"+sc.Pkg)
+	cmd.Dir = w.repo
+	cmd.Env = append(os.Environ(), "GOFLAGS=-mod=mod", "GOPROXY=off", "GOSUMDB=off", "GOTOOLCHAIN=local")
+	b, _ := cmd.CombinedOutput()
+	out.Attempted = true
+	out.Cmd = strings.Join(cmd.Args, " ")
+	for _, l := range strings.Split(string(b), "\n") {
+		l = strings.TrimSpace(l)
+		switch {
+		case strings.HasPrefix(l, "SCENARIO-VIOLATION"):
+			out.Confirmed = true
+			out.Detail = l
+			out.Outputs = append(out.Outputs, l)
+		case strings.HasPrefix(l, "SCENARIO-OK"), strings.HasPrefix(l, "SCENARIO-ERROR"):
+			out.Outputs = append(out.Outputs, l)
+			if out.Detail == "" {
+				out.Detail = l
+			}
+		}
+	}
+	if len(out.Outputs) == 0 {
+		out.Detail = "scenario test produced no verdict: " + truncate(string(b), 1500)
 	}
 	return out
 }
